@@ -9,7 +9,7 @@
    [anc_steps s fs k x a]: in exactly k steps.  [acyclic_source]: content
    addressing (a predecessor embeds its successor's digest). *)
 From Oras Require Import Base.Prelude Model.FindRoots Proofs.FindRoots.
-From Oras Require Import Model.CopySpec Proofs.CopySpec Proofs.FindRootsCopy Proofs.FindRootsMem.
+From Oras Require Import Model.CopySpec Proofs.CopySpec Proofs.FindRootsCopy Proofs.FindRootsMem Proofs.FindRootsAll.
 Local Open Scope nat_scope.
 
 (* Depth <= 0 (any filter stack, in particular none: find_preds s [] = s_preds s):
@@ -394,6 +394,35 @@ Proof. exact ex_two_roots. Qed.
 Example C03_ex_two_roots_only :
   extended_copy_run_only g_two [] [1; 2; 0] [mkDesc 2 [] None; mkDesc 1 [] None].
 Proof. exact ex_two_roots_only. Qed.
+
+(* THE PROPERTY's first sentence for sources backed by graph.Memory (memory, OCI layout, file
+   store), composed from C07 (Predecessors exact after EVERY history [ops] of Index / Remove /
+   IndexAll), this property's walk, and C01's copy transition system: after a successful
+   ExtendedCopyGraph with unlimited depth and no filter the destination holds every node [x]
+   reachable through links from any stored node [a] that reaches the given node through links
+   ([up_links]: paths over "y is stored and its content links to x").  Left as hypotheses: the
+   store serves graph.Memory's sets ([backed_by], checked by the harness on every case), both
+   models mean the same content.Successors ([links_agree]), content addressing, C01's
+   mt_consistent, and that the real copy phase is an accepted run ([extended_copy_run]). *)
+Theorem C03_property_unlimited_memory_backed :
+  forall (ct : GM.amap) (fuelm : nat) (ops : list GM.op) (s : source) (g : graph) (nd : desc)
+         (final : list node),
+    backed_by s (GM.s_g (fst (GM.run ct fuelm GM.init_state ops))) ->
+    (forall p x, In (N.of_nat x) (GM.ctab ct (N.of_nat p)) <-> In x (g_succ g p)) ->
+    (forall a, anc s [] (d_id nd) a -> g_foreign g a = false) ->
+    forall (rank : GM.node -> nat) (limit : Z) (fuel : nat) (roots : list desc),
+    content_acyclic (GM.ctab ct) rank -> mt_consistent g -> (limit <= 0)%Z ->
+    find_roots fuel s [] limit nd = Some roots ->
+    extended_copy_run g final roots ->
+    forall a, up_links ct fuelm ops (d_id nd) a ->
+    forall x, Proofs.CopySpec.reach g a x -> has g final x = true.
+Proof. exact property_unlimited. Qed.
+Print Assumptions C03_property_unlimited_memory_backed.
+
+Example C03_ex_property_all :
+  forall a, up_links ct_two 10 ops_two (d_id (mkDesc 0 [] None)) a ->
+  forall x, Proofs.CopySpec.reach g_two a x -> has g_two [1; 2; 0] x = true.
+Proof. exact ex_property_all. Qed.
 
 (* ExtendedCopy = Resolve; ExtendedCopyGraph; Tag: on success the destination
    reference (source reference when left blank) names the given node *)
